@@ -149,6 +149,69 @@ def handle (inp : String) (out : String) : String :=
         | _ => none
       verdict s!"stream:{(ms.splitOn " ").head!}" ms out spec
     | _, _ => "skip bad-stream-args"
+  | ["elparse", hx, depth] =>
+    match ofHex hx, depth.toNat? with
+    | some b, some d =>
+      -- KSI_TlvElement_parse = KSI_FTLV_memRead: trailing bytes after the element are tolerated
+      let ms := match memRead b with
+        | .ok h => s!"0 {(deepen d (.raw h.tag h.nc h.fwd ((b.drop h.hdrLen).take h.datLen))).render}"
+        | .error e => s!"{e} -"
+      let spec : Option String :=
+        match ow with
+        | "0" :: tr :: _ =>
+          match decodeHeader b, parseTree tr with
+          | some (tag, nc, fwd, hl, dl), some t =>
+            if hl + dl > b.length then some "accepted-truncated-element"
+            else if !treeMatches t tag nc fwd ((b.drop hl).take dl) then some "reported-tree-differs-from-bytes"
+            else none
+          | _, _ => some "accepted-undecodable-header"
+        | _ => none
+      verdict s!"elparse:{(ms.splitOn " ").head!}" ms out spec
+    | _, _ => "skip bad-elparse-args"
+  | ["elremove", hx, tag, _] =>
+    match ofHex hx, tag.toNat? with
+    | some b, some tg =>
+      let ms := match memRead b with
+        | .error e => s!"PARSE-FAILED-{e}"
+        | .ok h =>
+          match expand ((b.drop h.hdrLen).take h.datLen) with
+          | .error e => s!"{e} - -"
+          | .ok cs =>
+            if (cs.filter (·.tag == tg)).length != 1 then s!"{St.INVALID_STATE} - -"
+            else
+              let cs' := cs.filter (·.tag != tg)
+              s!"0 {showRes (elSer (.nested h.tag h.nc h.fwd cs') 70000 true)}"
+      let spec : Option String :=
+        match ow, decodeHeader b with
+        | ["0", "0", outHex], some (ptag, pnc, pfwd, hl, dl) =>
+          match specTile (dl + 1) ((b.drop hl).take dl), ofHex outHex with
+          | some items, some ob =>
+            let kept := items.filter (fun it => it.1 != tg)
+            let want := encode (.nested ptag pnc pfwd (kept.map fun (t, n, f, p) => .raw t n f p))
+            if items.length != kept.length + 1 then some "removed-when-tag-not-unique"
+            else if ob != want then some "serialization-after-remove-differs-from-format" else none
+          | _, _ => some "accepted-untileable-parent"
+        | _, _ => none
+      verdict s!"elremove:{(ms.splitOn " ").head!}" ms out spec
+    | _, _ => "skip bad-elremove-args"
+  | ["elset", hx, chx] =>
+    match ofHex hx, ofHex chx with
+    | some b, some cb =>
+      let ms := match memRead b, memRead cb with
+        | .error e, _ => s!"PARSE-FAILED-{e}"
+        | _, .error e => s!"CHILD-PARSE-FAILED-{e}"
+        | .ok h, .ok ch =>
+          let child : Tlv := .raw ch.tag ch.nc ch.fwd ((cb.drop ch.hdrLen).take ch.datLen)
+          match expand ((b.drop h.hdrLen).take h.datLen) with
+          | .error e => s!"{e} - -"
+          | .ok cs =>
+            let k := (cs.filter (·.tag == ch.tag)).length
+            if k == 0 then s!"0 {showRes (elSer (.nested h.tag h.nc h.fwd (cs ++ [child])) 70000 true)}"
+            else if k == 1 then
+              s!"0 {showRes (elSer (.nested h.tag h.nc h.fwd (cs.map fun c => if c.tag == ch.tag then child else c)) 70000 true)}"
+            else s!"{St.INVALID_STATE} - -"
+      verdict s!"elset:{(ms.splitOn " ").head!}" ms out none
+    | _, _ => "skip bad-elset-args"
   | _ => s!"skip unknown-op"
 
 def main : IO Unit := runDriver handle
